@@ -399,6 +399,11 @@ def main():
     prop = importlib.import_module(f"props.{a.pid}")
     if a.tier == "thorough":                  # larger configurations: a single exploration may take tens of minutes
         core.COQ_TIMEOUT = max(core.COQ_TIMEOUT, 2400)
+    # two runs of the same property in the same build area would wipe each other's generated files: serialise them
+    import fcntl
+    BUILD.mkdir(parents=True, exist_ok=True)
+    _lk = open(BUILD / f".lock_{a.pid}", "w")
+    fcntl.flock(_lk, fcntl.LOCK_EX)
     try:
         r = run_check(prop, a.tier, seed, replay=a.replay)
         if r is None:
